@@ -23,12 +23,17 @@ Definition ws4_char (c : N) : bool := (c =? cSP) || (c =? cTAB) || (c =? cLF) ||
 Definition sep4_ok (w : str) : bool := negb (is_empty w) && forallb ws4_char w.
 Definition wf_pad_ttl (pd : pad) : bool :=
   ws_ok (w0 pd) && sep4_ok (w1 pd) && sep4_ok (w2 pd) && forallb ws4_char (w3 pd) && ws_ok (w4 pd).
+Definition wf_objs (os : list term) : bool := negb (is_empty os) && forallb wf_term_ttl os.
+Definition wf_po (po : term * list term) : bool := wf_term_ttl (fst po) && negb (is_lit (fst po)) && wf_objs (snd po).
+Definition wf_list (s : term) (pos : list (term * list term)) : bool :=
+  wf_term_ttl s && negb (is_lit s) && negb (is_empty pos) && forallb wf_po pos.
 Definition wf_item_ttl (i : item) : bool :=
   match i with
   | IBlank ws => ws_ok ws
   | IComment ws _ => ws_ok ws
   | IStmt pd s p o None => wf_pad_ttl pd && wf_term_ttl s && negb (is_lit s) && wf_term_ttl p && negb (is_lit p) && wf_term_ttl o
   | IPrefix name iri => forallb name_char name && forallb n3_char iri
+  | IList s pos => wf_list s pos          (* s p o , o ; p o .   with single blanks, as Spec.render_item writes it *)
   | _ => false
   end.
 Definition wf_doc_ttl (d : list item) : bool := forallb wf_item_ttl d.
